@@ -495,6 +495,8 @@ def run(ctx: Ctx, rep: Report, tier: str) -> None:  # noqa: C901
                 rep.violation(ls.qualname, f"_ports = {snippet(stored['_ports'])}", "the port list is not computed from the operands stored in _items", where(ls))
         if cons_ok:
             rep.ok(f"{ls.qualname}: path storing all four views", "_ports = f(_items), _sport = g(_ports)", where=where(ls))
+    numerals_as_text(ctx, rep)
+    rep.rule("R08.5")
     for nm in ("items", "ports", "sport", "protocol"):
         st = port.lookup_setter(nm)
         if st is None:
@@ -513,6 +515,44 @@ def run(ctx: Ctx, rep: Report, tier: str) -> None:  # noqa: C901
             rep.ok(f"Port.{nm} setter", "every normal path re-enters the line setter (directly or through another view)", where=where(st))
         else:
             rep.violation(st.qualname, "normal path without self.line = ...", "a writable view can return without rebuilding the other views from text", where(st))
+
+
+NUMERAL_SLICE = [
+    "helpers.string_to_ports",
+    "helpers._port_range_min_max",
+    "helpers.ports_to_string",
+    "Port._line__items_to_ints",
+    "Port._items_to_ports",
+    "Port._ports_to_items",
+    "Port.ports.setter",
+    "Port.sport.setter",
+    "Port.items.setter",
+]
+
+
+def numerals_as_text(ctx: Ctx, rep: Report, rid: str = "R08.7") -> None:
+    """In the port codec no ordering comparison may have two str-typed operands (numerals compared as text)."""
+    rep.rule(rid)
+    n = 0
+    for q in NUMERAL_SLICE:
+        f = ctx.prog.find_func(q)
+        if f is None:
+            continue
+        for x in own_nodes(f.node):
+            if not isinstance(x, ast.Compare):
+                continue
+            operands = [x.left] + list(x.comparators)
+            for a, op, b in zip(operands, x.ops, operands[1:]):
+                if not isinstance(op, (ast.Lt, ast.LtE, ast.Gt, ast.GtE)):
+                    continue
+                n += 1
+                ta, tb = ctx.types.expr_type(a, f), ctx.types.expr_type(b, f)
+                if ta == ("str",) and tb == ("str",):
+                    rep.violation(q, snippet(x), "both operands are strings: port numbers are ordered as text ('9' > '10'), so ranges whose bounds order differently as text are mis-handled", where(f, x), inp='Port("range 9 10", protocol="tcp").sport written back')
+                else:
+                    rep.ok(f"{q}: {snippet(x, 50)}", "ordering comparison on integers", nontrivial=False, where=where(f, x))
+    rep.instance(n)
+    rep.floor(3, "ordering comparisons in the port codec")
 
 
 def _effective_test(g: ast.If, fn: ast.AST) -> ast.AST:
